@@ -97,9 +97,11 @@ def case_filter(params):
     out = []
     if any(t not in expected for t, _ in got) and expected:
         out.append(("filter:unexpected-type-returned", {"spec": spec, "expected": expected}))
-    # prefix of the unfiltered result (weakest reading); identical when all used types are expected
-    if got != full[: len(got)]:
-        out.append(("filter:not-a-prefix", {"spec": spec, "expected": expected, "got": [(t, len(v)) for t, v in got]}))
+    # a subsequence of the unfiltered result (weakest reading: covers both "stop at the first unexpected type" and "skip unexpected types");
+    # identical when all used types are expected
+    it = iter(full)
+    if not all(any(g == f for f in it) for g in got):
+        out.append(("filter:not-a-subsequence-of-the-unfiltered-result", {"spec": spec, "expected": expected, "got": [(t, len(v)) for t, v in got]}))
     used = {t for t, _ in full}
     if used <= set(expected) and got != full:
         out.append(("filter:all-expected-but-differs", {"spec": spec, "expected": expected}))
